@@ -751,8 +751,10 @@ class Stmts(Exec):
             if r is not None: return r
         raise Unsupported('iteration over %s at %s' % (t, self.loc(node)))
 
-    def perm_of_set(self, st, t, S):
-        """Arbitrary-order listing of a set: fresh list, duplicate free, same members."""
+    def perm_of_set(self, st, t, S, alt=None):
+        """Arbitrary-order listing of a set: fresh list, duplicate free, same members.
+        alt = (member(k), trigger(k)): the same membership stated over another term (e.g. the dictionary), so that
+        quantified contract clauses over that term instantiate the listing facts by e-matching."""
         S0 = S; S = fresh_z(t, 'setv'); kk = z3.Const(fresh_name('k'), sort_of(t.elem))
         st.assume(z3.ForAll([kk], z3.Select(S, kk) == z3.Select(S0, kk)))
         lt = ListT(t.elem); L = fresh_z(lt, 'setiter')
@@ -763,9 +765,14 @@ class Stmts(Exec):
         idx = z3.Function(fresh_name('idx'), sort_of(t.elem), z3.IntSort())
         st.assume(z3.ForAll([k], z3.Implies(z3.Select(S, k), z3.And(0 <= idx(k), idx(k) < n, list_get(lt, L, idx(k)) == k)), patterns=[z3.Select(S, k)]))
         st.assume(z3.ForAll([i], z3.Implies(z3.And(0 <= i, i < n), idx(list_get(lt, L, i)) == i), patterns=[list_get(lt, L, i)]))
+        if alt is not None:
+            member, trigger = alt
+            st.assume(z3.ForAll([k], z3.Implies(member(k), z3.And(0 <= idx(k), idx(k) < n, list_get(lt, L, idx(k)) == k)), patterns=[trigger(k)]))
+            st.assume(z3.ForAll([i], z3.Implies(z3.And(0 <= i, i < n), member(list_get(lt, L, i))), patterns=[list_get(lt, L, i)]))
         self.assume_note('set/dict iteration order is arbitrary (fresh duplicate-free listing of the members)')
-        return V(lt, L)
+        v = V(lt, L); v.src = ('listing', idx, n)
+        return v
 
     def perm_of_keys(self, st, t, D):
         ks = z3.Lambda([z3.Const('kk', sort_of(t.k))], z3.Not(opt_is_none(opt(t.v), z3.Select(D, z3.Const('kk', sort_of(t.k))))))
-        return self.perm_of_set(st, SetT(t.k), ks)
+        return self.perm_of_set(st, SetT(t.k), ks, alt=(lambda k: z3.Not(opt_is_none(opt(t.v), z3.Select(D, k))), lambda k: z3.Select(D, k)))
